@@ -386,7 +386,7 @@ impl Property for C15 {
     fn classes(&self) -> Vec<ClassSpec> {
         let mut v: Vec<ClassSpec> = SUITES.iter().map(|s| cls(s, 400, 20_000)).collect();
         v.push(cls("large_groups", 40, 400));
-        v.push(cls("max_group_65535", 0, 1));
+        v.push(cls("max_group_65535", 1, 2));
         v
     }
     fn strategy(&self, class: usize) -> BoxedStrategy<Case> {
